@@ -1522,9 +1522,10 @@ class Interp:
             return sp, iv, lambda: Sc(sym.add(lo, sym.mul(sym.IV(iv), st)))
         if isinstance(it, ObjV) and it.tag == "enumerate":
             sp, iv, f = self.iteration(it.attrs["inner"], node)
+            k0 = it.attrs.get("start", 0)
             if sp is None:
-                return None, None, [Seq([Sc(sym.Num(k)), x], "tuple") for k, x in enumerate(f)]
-            return sp, iv, lambda: Seq([Sc(sym.IV(iv)), f()], "tuple")
+                return None, None, [Seq([Sc(sym.Num(k)), x], "tuple") for k, x in enumerate(f, k0)]
+            return sp, iv, lambda: Seq([Sc(sym.add(sym.IV(iv), sym.Num(k0)) if k0 else sym.IV(iv)), f()], "tuple")
         if isinstance(it, ObjV) and it.tag == "zip":
             inners = [self.iteration(x, node) for x in it.attrs["items"]]
             if all(i[0] is None for i in inners):
@@ -1720,7 +1721,7 @@ class Interp:
             if isinstance(it, ObjV) and it.tag == "enumerate":
                 inner = self._live_source(it.attrs["inner"], st.iter)
                 if inner is not it.attrs["inner"]:
-                    it = ObjV(None, dict(inner=inner), tag="enumerate")
+                    it = ObjV(None, dict(it.attrs, inner=inner), tag="enumerate")
         if isinstance(it, CondSeq) and not st.orelse:
             # every item in turn, its body under the condition that the item is in the list at all
             cache = self.__dict__.setdefault("_condfor", {})
@@ -1777,7 +1778,7 @@ class Interp:
                 k_ = 0
                 while k_ < len(live[0].items):
                     x_ = live[0].items[k_]
-                    yield Seq([Sc(sym.Num(k_)), x_], "tuple") if live[1] else x_
+                    yield Seq([Sc(sym.Num(k_ + (it.attrs.get("start", 0) if live[1] else 0))), x_], "tuple") if live[1] else x_
                     k_ += 1
             for item in items_():
                 self.assign(st.target, item, env, st)
@@ -2743,15 +2744,38 @@ class Interp:
             return self.join_cond(c, a, b)
         if isinstance(n, (ast.List, ast.Tuple)):
             items = []
+            parts = []      # [*a, x, *b] with a part of unknown length: list(a) + [x] + list(b)
             for e in n.elts:
                 if isinstance(e, ast.Starred):
                     v = self.eval(e.value, env)
                     if isinstance(v, Seq):
                         items.extend(v.items)
+                    elif isinstance(n, ast.List) and isinstance(v, (Arr, Concat)):
+                        self.log.append({"kind": "call", "target": "builtins.list", "node": e})
+                        try:
+                            lv = self.prims["builtins.list"](self, e, [v], {})
+                        finally:
+                            self.log.pop()
+                        if isinstance(lv, Seq):
+                            items.extend(lv.items)
+                        elif _is_pylist(lv):
+                            if items:
+                                parts.append(Seq(items, "list"))
+                                items = []
+                            parts.append(lv)
+                        else:
+                            items.append(self.unknown("starred", e))
                     else:
                         items.append(self.unknown("starred", e))
                 else:
                     items.append(self.eval(e, env))
+            if parts:
+                if items:
+                    parts.append(Seq(items, "list"))
+                out = parts[0]
+                for q in parts[1:]:
+                    out = self.binary(ast.Add(), out, q, n)
+                return out
             return Seq(items, "list" if isinstance(n, ast.List) else "tuple")
         if isinstance(n, ast.Dict):
             d = {}
@@ -2839,6 +2863,23 @@ class Interp:
             return self.unknown("nested-comprehension", n)
         g = n.generators[0]
         it = self.eval(g.iter, env)
+        if isinstance(it, Concat) and isinstance(n, (ast.ListComp, ast.GeneratorExp)) and not g.ifs and len(it.parts) >= 2 \
+                and "__concat_part" not in env:
+            # [f(x) for x in a + b] is [f(x) for x in a] + [f(x) for x in b]: the parts may hold items of different make
+            # (rows of an array, python pairs), which one generic item would blur
+            tmp = ast.copy_location(ast.Name("__concat_part", ast.Load()), g.iter)
+            g2 = ast.comprehension(target=g.target, iter=tmp, ifs=[], is_async=0)
+            n2 = ast.copy_location(ast.ListComp(elt=n.elt, generators=[g2]), n)
+            outs = []
+            for part in it.parts:
+                sub2 = dict(env)
+                sub2["__concat_part"] = part
+                outs.append(self.comprehension(n2, sub2))
+            if all(_is_pylist(o) for o in outs):
+                acc = outs[0]
+                for o in outs[1:]:
+                    acc = self.binary(ast.Add(), acc, o, n)
+                return acc
         sp, iv, elem = self.iteration(it, g.iter)
         sub = dict(env)
         if sp is None:
